@@ -87,11 +87,16 @@ func (x *c03Interp) eval(fr *c03Frame, st *c03State, e ast.Expr) []c03EV {
 		switch o := objOf(info, e).(type) {
 		case *types.Nil:
 			return c03One(st, &c03V{K: c03KNil, T: t})
+		case *types.Func:
+			return c03One(st, &c03V{K: c03KFunc, Fn: o, T: t})
 		case *types.Var:
 			if v := st.vars[o]; v != nil {
 				return c03One(st, v)
 			}
 			if o.Pkg() != nil && o.Parent() == o.Pkg().Scope() {
+				if init, gfi := x.globalInit(o); init != nil && fr.depth < 8 {
+					return x.eval(&c03Frame{fi: gfi, parent: fr, depth: fr.depth + 1, label: "initialiser of " + o.Name()}, st, init)
+				}
 				return c03One(st, x.Param(o))
 			}
 			return c03One(st, x.unk(t))
@@ -100,10 +105,27 @@ func (x *c03Interp) eval(fr *c03Frame, st *c03State, e ast.Expr) []c03EV {
 	case *ast.SelectorExpr:
 		sel := info.Selections[e]
 		if sel == nil {
-			if o, ok := info.Uses[e.Sel].(*types.Var); ok {
+			switch o := info.Uses[e.Sel].(type) {
+			case *types.Var:
 				return c03One(st, x.Param(o))
+			case *types.Func:
+				return c03One(st, &c03V{K: c03KFunc, Fn: o, T: t})
 			}
 			return c03One(st, x.unk(t))
+		}
+		if sel.Kind() == types.MethodVal {
+			// a method value: the method bound to its receiver
+			if m, ok := sel.Obj().(*types.Func); ok {
+				var out []c03EV
+				for _, ev := range x.eval(fr, st, e.X) {
+					rv := ev.v
+					for _, f := range c03SelFields(sel) {
+						rv = x.field(ev.st, rv, f, e, fr)
+					}
+					out = append(out, c03EV{ev.st, &c03V{K: c03KFunc, Fn: m, From: []*c03V{rv}, T: t}})
+				}
+				return out
+			}
 		}
 		if sel.Kind() != types.FieldVal {
 			return c03One(st, x.unk(t))
@@ -139,6 +161,14 @@ func (x *c03Interp) eval(fr *c03Frame, st *c03State, e ast.Expr) []c03EV {
 					return c03One(st, &c03V{K: c03KAddr, Var: o, T: t})
 				}
 			}
+			if t == nil {
+				if xt := info.TypeOf(e.X); xt != nil {
+					t = types.NewPointer(xt) // synthesised &recv of a pointer-receiver call
+				}
+			}
+			if out, ok := x.addrOf(fr, st, e.X, t); ok {
+				return out
+			}
 			var out []c03EV
 			for _, ev := range x.eval(fr, st, c03AddrBase(e.X)) {
 				out = append(out, c03EV{ev.st, &c03V{K: c03KUnk, T: t, Key: x.fresh("a"), From: []*c03V{ev.v}, Z: triF}})
@@ -161,6 +191,16 @@ func (x *c03Interp) eval(fr *c03Frame, st *c03State, e ast.Expr) []c03EV {
 		}
 		var out []c03EV
 		for _, o := range x.evalList(fr, st, []ast.Expr{e.X, e.Y}) {
+			a, b := o.vs[0], o.vs[1]
+			switch {
+			case e.Op == token.ADD && a.K == c03KStr && b.K == c03KStr:
+				out = append(out, c03EV{o.st, &c03V{K: c03KStr, Str: a.Str + b.Str, T: t}})
+				continue
+			case a.K == c03KInt && b.K == c03KInt && (e.Op == token.ADD || e.Op == token.SUB || e.Op == token.MUL):
+				n := map[token.Token]int64{token.ADD: a.Int + b.Int, token.SUB: a.Int - b.Int, token.MUL: a.Int * b.Int}[e.Op]
+				out = append(out, c03EV{o.st, &c03V{K: c03KInt, Int: n, T: t}})
+				continue
+			}
 			u := x.unk(t)
 			u.From = o.vs
 			out = append(out, c03EV{o.st, u})
@@ -206,6 +246,13 @@ func (x *c03Interp) eval(fr *c03Frame, st *c03State, e ast.Expr) []c03EV {
 		var out []c03EV
 		for _, o := range x.evalList(fr, st, []ast.Expr{e.X, e.Index}) {
 			b, i := o.vs[0], o.vs[1]
+			if hit, known := c03MapLookup(b, i); known {
+				if hit == nil {
+					hit = c03ZeroValue(t)
+				}
+				out = append(out, c03EV{o.st, hit})
+				continue
+			}
 			if b.K == c03KList && b.Base == nil && i.K == c03KInt && int(i.Int) < len(b.Elems) && i.Int >= 0 {
 				out = append(out, c03EV{o.st, b.Elems[i.Int]})
 				continue
@@ -227,7 +274,7 @@ func (x *c03Interp) eval(fr *c03Frame, st *c03State, e ast.Expr) []c03EV {
 		}
 		return out
 	case *ast.FuncLit:
-		st.event(c03Event{Kind: "unsupported", Node: e, Frame: fr, Why: "function literal (its body is not explored)"})
+		return c03One(st, &c03V{K: c03KFunc, Lit: e, Env: fr, T: t})
 	}
 	return c03One(st, x.unk(t))
 }
@@ -258,6 +305,8 @@ func (x *c03Interp) deref(st *c03State, v *c03V, t types.Type, at ast.Node, fr *
 	switch v.K {
 	case c03KPtr:
 		return st.heap[v.Obj]
+	case c03KRef:
+		return x.refTarget(st, v, at, fr)
 	case c03KAddr:
 		if c := st.vars[v.Var]; c != nil {
 			return c
@@ -328,7 +377,20 @@ func (x *c03Interp) evalLit(fr *c03Frame, st *c03State, lit *ast.CompositeLit) [
 		case *types.Slice, *types.Array:
 			out = append(out, c03EV{o.st, &c03V{K: c03KList, T: t, Elems: o.vs, NonNil: true, Site: lit}})
 		case *types.Map:
-			out = append(out, c03EV{o.st, &c03V{K: c03KList, T: t, Elems: o.vs, NonNil: true, Site: lit}})
+			m := &c03V{K: c03KList, T: t, Elems: o.vs, NonNil: true, Site: lit}
+			for _, el := range lit.Elts {
+				var k *c03V
+				if kv, ok := el.(*ast.KeyValueExpr); ok {
+					if tv, ok := info.Types[kv.Key]; ok && tv.Value != nil {
+						k = c03ConstValue(tv)
+					}
+				}
+				if k == nil {
+					k = x.unk(nil)
+				}
+				m.Keys = append(m.Keys, k)
+			}
+			out = append(out, c03EV{o.st, m})
 		default:
 			out = append(out, c03EV{o.st, x.unk(t)})
 		}
@@ -617,6 +679,31 @@ func (x *c03Interp) evalCall(fr *c03Frame, st *c03State, call *ast.CallExpr) []c
 	if b := builtinName(info, call); b != "" {
 		return x.evalBuiltin(fr, st, call, b, t)
 	}
+	var out []c03EV
+	for _, c := range x.calleeParts(fr, st, call) {
+		switch {
+		case c.fv != nil && c.fv.K == c03KFunc && c.fv.Lit != nil:
+			if evs := x.callLit(fr, c.st, call, c.fv, c.args, t); evs != nil {
+				out = append(out, evs...)
+				continue
+			}
+			out = append(out, x.apply(fr, c.st, call, nil, nil, c.args, t)...)
+		case c.fv != nil && c.fv.K == c03KFunc && c.fv.Fn != nil:
+			var recv *c03V
+			if len(c.fv.From) > 0 {
+				recv = c.fv.From[0]
+			}
+			out = append(out, x.apply(fr, c.st, call, c.fv.Fn, recv, c.args, t)...)
+		default:
+			out = append(out, x.apply(fr, c.st, call, c.fn, c.recv, c.args, t)...)
+		}
+	}
+	return out
+}
+
+// calleeParts evaluates the callee (static function, or function value), the receiver and the arguments of a call.
+func (x *c03Interp) calleeParts(fr *c03Frame, st *c03State, call *ast.CallExpr) []c03Callee {
+	info := fr.info()
 	fn := callee(info, call)
 	// receiver
 	var recvE ast.Expr
@@ -645,16 +732,22 @@ func (x *c03Interp) evalCall(fr *c03Frame, st *c03State, call *ast.CallExpr) []c
 		}
 	}
 	exprs := call.Args
+	funcValue := false
 	if recvE != nil {
 		exprs = append([]ast.Expr{recvE}, call.Args...)
 	} else if fn == nil {
-		// call of a function value: evaluate the function expression for its effects
-		exprs = append([]ast.Expr{}, call.Args...)
+		// call of a function value: the function expression is evaluated first
+		exprs = append([]ast.Expr{call.Fun}, call.Args...)
+		funcValue = true
 	}
-	var out []c03EV
+	var out []c03Callee
 	for _, o := range x.evalList(fr, st, exprs) {
 		var recv *c03V
 		args := o.vs
+		if funcValue {
+			out = append(out, c03Callee{st: o.st, fv: o.vs[0], args: o.vs[1:]})
+			continue
+		}
 		if recvE != nil {
 			recv = o.vs[0]
 			if id, ok := ast.Unparen(recvE).(*ast.Ident); ok && addrTaken {
@@ -667,7 +760,7 @@ func (x *c03Interp) evalCall(fr *c03Frame, st *c03State, call *ast.CallExpr) []c
 			}
 			args = o.vs[1:]
 		}
-		out = append(out, x.apply(fr, o.st, call, fn, recv, args, t)...)
+		out = append(out, c03Callee{st: o.st, fn: fn, recv: recv, args: args})
 	}
 	return out
 }
@@ -701,7 +794,21 @@ func (x *c03Interp) apply(fr *c03Frame, st *c03State, call *ast.CallExpr, fn *ty
 	if rs, ok := x.stdModel(st, fn, recv, args, t); ok {
 		return c03One(st, c03ResultValue(rs, t))
 	}
-	if fi := x.inlinable(fn); fi != nil && fr.depth < 8 {
+	// a call through an interface of the repository on a value whose concrete type the path knows is the call of
+	// that type's method (strategy objects, osm.Object values built on the path)
+	if fn != nil && recv != nil && c03IsRepoInterfaceMethod(fn) {
+		if m := c03ConcreteMethod(recv, fn); m != nil {
+			fn = m
+		} else {
+			st.event(c03Event{Kind: "dynamic", Node: call, Frame: fr, Call: call, Fn: fn, Why: "call of " + funcName(fn) + " through an interface of the repository on a value whose concrete type is not known on this path"})
+		}
+	}
+	if fn == nil {
+		st.event(c03Event{Kind: "dynamic", Node: call, Frame: fr, Call: call, Why: "call of a function value that is not a function literal / method value known on this path"})
+	}
+	if fi := x.inlinable(fn); fi != nil && fn.Type().(*types.Signature).TypeParams().Len() > 0 {
+		st.event(c03Event{Kind: "unsupported", Node: call, Frame: fr, Call: call, Why: "call of the generic function " + funcName(fn) + ": type arguments are not substituted by the analysis"})
+	} else if fi != nil && fr.depth < 8 {
 		rec := false
 		for f := fr; f != nil; f = f.parent {
 			if f.fi.Obj == fn {
@@ -742,6 +849,13 @@ func (x *c03Interp) apply(fr *c03Frame, st *c03State, call *ast.CallExpr, fn *ty
 	st.event(c03Event{Kind: "call", Node: call, Frame: fr, Call: call, Fn: fn, Recv: recv, Args: args, Deref: deref(), Results: rs})
 	// a local whose address was handed out is unknown afterwards, unless it holds a pointer (the pointee is filled)
 	for _, a := range args {
+		if a.K == c03KRef {
+			if cur := x.refTarget(st, a, call, fr); cur == nil || (cur.K != c03KPtr && cur.K != c03KAddr && cur.K != c03KRef) {
+				u := x.unk(c03DerefT(a.T))
+				u.Call, u.Fn, u.From = call, fn, []*c03V{a}
+				x.refStore(st, a, nil, u, call, fr)
+			}
+		}
 		if a.K == c03KAddr {
 			cur := st.vars[a.Var]
 			if cur != nil && (cur.K == c03KPtr || cur.K == c03KAddr) {
@@ -901,7 +1015,7 @@ func (x *c03Interp) inline(fr *c03Frame, st *c03State, call *ast.CallExpr, fi *F
 		}
 	}
 	var out []c03EV
-	for _, o := range x.execBlock(nf, st, fi.Decl.Body.List) {
+	for _, o := range x.runDefers(nf, x.execBlock(nf, st, fi.Decl.Body.List), c03NamedResults(sig)) {
 		switch o.ctl {
 		case c03Return, c03Next:
 			rs := o.ret
@@ -917,4 +1031,46 @@ func (x *c03Interp) inline(fr *c03Frame, st *c03State, call *ast.CallExpr, fi *F
 		}
 	}
 	return out
+}
+
+// c03MapLookup looks key up in a map value built from a literal whose keys are all constants: the element, nil for
+// "not present"; known=false when the map or the key is not known well enough.
+func c03MapLookup(m, key *c03V) (hit *c03V, known bool) {
+	if m == nil || m.K != c03KList || m.Base != nil || len(m.Keys) != len(m.Elems) || len(m.Keys) == 0 && !m.NonNil {
+		return nil, false
+	}
+	if _, isMap := m.T.Underlying().(*types.Map); !isMap {
+		return nil, false
+	}
+	if key.K != c03KStr && key.K != c03KOther && key.K != c03KInt {
+		return nil, false
+	}
+	for i, k := range m.Keys {
+		if k.K != c03KStr && k.K != c03KInt {
+			return nil, false
+		}
+		if (k.K == c03KStr && key.K == c03KStr && k.Str == key.Str) || (k.K == c03KInt && key.K == c03KInt && k.Int == key.Int) {
+			return m.Elems[i], true
+		}
+	}
+	return nil, true
+}
+
+// c03IsRepoInterfaceMethod: fn is a method of an interface type declared in the repository.
+func c03IsRepoInterfaceMethod(fn *types.Func) bool {
+	if fn == nil || fn.Pkg() == nil || !strings.HasPrefix(fn.Pkg().Path(), core.ModulePath) {
+		return false
+	}
+	rv := fn.Type().(*types.Signature).Recv()
+	return rv != nil && c03IsIface(rv.Type())
+}
+
+// c03ConcreteMethod resolves an interface method on the concrete type the receiver value is known to have.
+func c03ConcreteMethod(recv *c03V, fn *types.Func) *types.Func {
+	if recv == nil || recv.T == nil || c03IsIface(recv.T) || recv.K == c03KNil {
+		return nil
+	}
+	obj, _, _ := types.LookupFieldOrMethod(recv.T, true, fn.Pkg(), fn.Name())
+	m, _ := obj.(*types.Func)
+	return m
 }
